@@ -6,6 +6,8 @@ sys.path.insert(0, VERIF)
 from checks_config import CHECKS, METAS
 from manifest_meta import NOT_APPLICABLE_REASON, PENDING_REASON
 
+# Only checks listed in config/ENABLED.txt are claimed (work-in-progress configs stay unclaimed)
+ENABLED = set(open(os.path.join(VERIF, "config", "ENABLED.txt")).read().split())
 props = [json.loads(l)["id"] for l in open(os.path.join(VERIF, "properties.jsonl"))]
 hooks = subprocess.run(["git", "-C", "/repo", "log", "--format=%H %s", "--grep=^verif hook"],
                        capture_output=True, text=True).stdout.strip().splitlines()
@@ -21,9 +23,9 @@ m = {
         "add_only": True,
     },
     "engines": [
-        {"name": "harness-plumbing", "path": "engine/harness.hh", "serves_properties": sorted(CHECKS),
+        {"name": "harness-plumbing", "path": "engine/harness.hh", "serves_properties": sorted(ENABLED & set(CHECKS)),
          "kind_free_text": "sharding, deadlines, counters, crash/hang attribution, result files"},
-        {"name": "driver", "path": "check", "serves_properties": sorted(CHECKS),
+        {"name": "driver", "path": "check", "serves_properties": sorted(ENABLED & set(CHECKS)),
          "kind_free_text": "rebuilds libraries+harness from /repo working tree, runs shards, merges evidence, known findings"},
     ],
     "checks": [],
@@ -31,7 +33,7 @@ m = {
     "not_applicable": [],
 }
 for pid in props:
-    if pid in CHECKS:
+    if pid in CHECKS and pid in ENABLED:
         c = CHECKS[pid]
         mm = METAS[pid]
         entry = {
